@@ -1,5 +1,5 @@
 """Property -> rule families.  Each entry is a list of callables taking the Run context."""
-import rf_alloc, rf_state
+import rf_alloc, rf_state, rf_tables, rf_sig
 
 
 def c17_rf1(run):
@@ -27,7 +27,27 @@ def c18_rf5(run):
     run.control('RF5', 'rf5_control.c', got == {'static counter', 'static shared_box', 'static table', 'static id'})
 
 
+def c15_rf17(run):
+    rf_tables.rf17(run)
+    run.min_instances('RF17', 500)
+
+
+def c02_rf8(run):
+    rf_sig.rf8(run, engines=('interp', 'folder'))
+    run.min_instances('RF8', 250)
+    rf_sig.rf8_control(run)
+
+
+def c20_rf8(run):
+    rf_sig.rf8(run, engines=('mir2c',))
+    run.min_instances('RF8', 120)
+    rf_sig.rf8_control(run)
+
+
 PLAN = {
+    'C02': [c02_rf8],
+    'C20': [c20_rf8],
+    'C15': [c15_rf17],
     'C18': [c18_rf5],
     'C17': [c17_rf1, c17_rf3],
 }
